@@ -75,8 +75,8 @@ Definition get : M state := gets (fun s => s).
 
 (* ------------------------------------------------------------------------------------------------
    SessionCache.update_simple_index / update_composite_index (one function: a simple key is a spec of length 1).
-   Returns the entries appended to the caller's `undo` list.  logged=false is Entity.set, whose undo list is never used. *)
-Definition update_index (logged : bool) (o e : nat) (spec : list nat) (prev new : list value) : M unit :=
+   The writes and the entries appended to the caller's `undo` list form one block. *)
+Definition update_index (o e : nat) (spec : list nat) (prev new : list value) : M unit :=
   tick_idx flt ;;;
   let prevN := has_none prev in
   let newN := has_none new in
@@ -90,14 +90,14 @@ Definition update_index (logged : bool) (o e : nat) (spec : list nat) (prev new 
       let w1 := if newN then [] else [(LIdx e spec new, CObj (Some o))] in
       let u1 := if newN then [] else [UW (LIdx e spec new) (CObj None)] in
       if prevN then
-        (if logged then block w1 u1 else unlogged_writes TSetIdx w1)
+        block w1 u1
       else
         match g_idx s e spec prev with
         | Some o3 =>
             if Nat.eqb o3 o then
               let w := w1 ++ [(LIdx e spec prev, CObj None)] in
               let u := u1 ++ [UW (LIdx e spec prev) (CObj (Some o))] in
-              if logged then block w u else unlogged_writes TSetIdx w
+              block w u
             else add_taint TInconsistent ;;; writes (w1 ++ [(LIdx e spec prev, CObj None)])      (* `del` removes somebody else's entry *)
         | None => add_taint TInconsistent ;;; writes w1 ;;; fail EKey                            (* del cache_index[old]: KeyError *)
         end
@@ -107,9 +107,9 @@ Definition update_index (logged : bool) (o e : nat) (spec : list nat) (prev new 
 Definition attr_index_updates (o e a : nat) (old new : value) : M unit :=
   let en := get_ent sch e in
   let at_ := get_attr sch e a in
-  (if a_unique at_ then update_index true o e [a] [old] [new] else ret tt) ;;;
+  (if a_unique at_ then update_index o e [a] [old] [new] else ret tt) ;;;
   iterM (fun ck => if in_ckey a ck
-                   then s <- get ;; update_index true o e ck (key_with s o ck a old) (key_with s o ck a new)
+                   then s <- get ;; update_index o e ck (key_with s o ck a old) (key_with s o ck a new)
                    else ret tt) (e_ckeys en).
 
 (* Attribute.__set__, first half: write bits, status, save queue, the value; append the closure that restores them *)
@@ -216,25 +216,19 @@ Definition update_reverse (del : oid -> M unit) (o e a : nat) (old new : value) 
   end.
 
 (* ------------------------------------------------------------------------------------------------ Set.__set__ *)
-(* the bookkeeping after the try block (never undone).  added/removed are updated exactly as the code does, including the
-   stale local `removed` after setdata.removed has been rebound *)
-Definition set_tail (direct : bool) (o e a : nat) (newl to_add to_remove : list oid) : M unit :=
+(* the bookkeeping after the try block (never undone): items := new; added / removed as the code computes them (repo 83f8eb8: the locals
+   are kept in sync; repo 11753a1: for a one-to-many collection the removals were already recorded by reverse_remove through the items) *)
+Definition set_tail (direct : bool) (m2m : bool) (o e a : nat) (newl to_add to_remove : list oid) : M unit :=
   s <- get ;;
   let n := g_next s in
   let A := members s (LAdded o a) in
   let R := members s (LRemoved o a) in
-  let rebound := negb (is_empty to_add) && negb (is_empty R) in
-  let to_add' := if rebound then minus to_add R else to_add in
-  let Rcur := if rebound then minus R to_add else R in
-  let Acur := if is_empty to_add then A else union A to_add' in
-  let local_added := if is_empty A then [] else Acur in
-  let to_remove' := if is_empty local_added then to_remove else minus to_remove local_added in
-  let Afin := if is_empty to_remove then Acur else if is_empty local_added then Acur else minus local_added to_remove in
-  let Rfin := if is_empty to_remove then Rcur
-              else if is_empty R then to_remove'
-              else if rebound then Rcur else union R to_remove' in
+  let A1 := if is_empty to_add then A else union A (minus to_add R) in
+  let R1 := if is_empty to_add then R else minus R to_add in
+  let A2 := if m2m && negb (is_empty to_remove) then minus A1 to_remove else A1 in
+  let R2 := if m2m && negb (is_empty to_remove) then union R1 (minus to_remove A1) else R1 in
   (if direct then writes else unlogged_writes TSetReverse)
-    (set_writes (LItem o a) n newl ++ set_writes (LAdded o a) n Afin ++ set_writes (LRemoved o a) n Rfin ++ [(LMod e a o, CBool true)]).
+    (set_writes (LItem o a) n newl ++ set_writes (LAdded o a) n A2 ++ set_writes (LRemoved o a) n R2 ++ [(LMod e a o, CBool true)]).
 
 Definition set_set (del : oid -> M unit) (direct : bool) (o e a : nat) (newl : list oid) : M unit :=
   s <- get ;;
@@ -251,7 +245,7 @@ Definition set_set (del : oid -> M unit) (direct : bool) (o e a : nat) (newl : l
    | _ => (if a_cascade at_ then iterM del to_remove else iterM (fun x => attr_set_rev x ra VNone) to_remove) ;;;
           iterM (fun x => attr_set_rev x ra (VRef o)) to_add
    end) ;;;
-  set_tail direct o e a newl to_add to_remove.
+  set_tail direct (match a_kind rt with KSet => true | _ => false end) o e a newl to_add to_remove.
 
 (* ------------------------------------------------------------------------------------------------ Entity._delete_ *)
 Definition uact_safe (wl : list loc) (u : uact) : bool :=
@@ -445,18 +439,21 @@ Definition op_remove (o a : nat) (hs : list oid) : M unit :=
   let te := a_target at_ in
   let ra := a_reverse at_ in
   let rt := get_attr sch te ra in
-  (match a_kind rt with
-   | KSet => reverse_remove te ra its o
-   | _ => if a_cascade at_ then iterM del_top its else iterM (fun x => attr_set_rev x ra VNone) its
-   end) ;;;
-  s2 <- get ;;
-  let n := g_next s2 in
-  let A := members s2 (LAdded o a) in
-  let R := members s2 (LRemoved o a) in
-  let its' := if is_empty A then its else minus its A in
-  let Afin := if is_empty A then A else minus A its in
-  writes (set_writes (LItem o a) n (minus (members s2 (LItem o a)) its) ++ set_writes (LAdded o a) n Afin
-          ++ set_writes (LRemoved o a) n (union R its') ++ [(LMod e a o, CBool true)]).
+  match a_kind rt with
+  | KSet =>
+      reverse_remove te ra its o ;;;
+      s2 <- get ;;
+      let n := g_next s2 in
+      let A := members s2 (LAdded o a) in
+      let R := members s2 (LRemoved o a) in
+      let its' := if is_empty A then its else minus its A in
+      let Afin := if is_empty A then A else minus A its in
+      writes (set_writes (LItem o a) n (minus (members s2 (LItem o a)) its) ++ set_writes (LAdded o a) n Afin
+              ++ set_writes (LRemoved o a) n (union R its') ++ [(LMod e a o, CBool true)])
+  | _ =>
+      (* one-to-many: reverse_remove, called through the items, has already updated this SetData (repo 11753a1) *)
+      if a_cascade at_ then iterM del_top its else iterM (fun x => attr_set_rev x ra VNone) its
+  end.
 
 (* ------------------------------------------------------------------------------------------------ Entity.set with keyword arguments *)
 Fixpoint validate_kw (e : nat) (kw : list (nat * arg)) : M (list (nat * value) * list (nat * list oid)) :=
@@ -476,6 +473,28 @@ Definition lookup {A} (a : nat) (l : list (nat * A)) : option A :=
 Definition key_with_many (s : state) (o : oid) (spec : list nat) (av : list (nat * value)) : list value :=
   map (fun b => match lookup b av with Some v => v | None => g_val s o b end) spec.
 
+(* status / _wbits_ / objects_to_save of Entity.set with its undo_func (registered first, so undone last; repo cd0fda9):
+   the queue is popped only if this call queued the object *)
+Definition set_touch (o : oid) (mask : N) (has_av : bool) : M unit :=
+  s <- get ;;
+  let st0 := g_status s o in
+  let wb0 := g_wbits s o in
+  match wb0, has_av with
+  | Some w, true =>
+      let w' := N.lor w mask in
+      if status_eqb st0 SModified then
+        block [(LWbits o, CBits (Some w'))] [UW (LStatus o) (CStatus st0); UW (LWbits o) (CBits wb0)]
+      else
+        match st0, g_savepos s o with
+        | SInserted, None | SUpdated, None =>
+            let q := g_queue s in
+            block [(LWbits o, CBits (Some w')); (LStatus o, CStatus SModified); (LSavePos o, CPos (Some (length q))); (LQueue, CQueue (q ++ [Some o]))]
+                  [UW (LStatus o) (CStatus st0); UW (LWbits o) (CBits wb0); UQPop o; UW (LSavePos o) (CPos None)]
+        | _, _ => add_taint TInconsistent ;;; fail EAssert
+        end
+  | _, _ => block [] [UW (LStatus o) (CStatus st0); UW (LWbits o) (CBits wb0)]
+  end.
+
 Definition op_setmany (o : nat) (kw : list (nat * arg)) : M unit :=
   s <- get ;;
   guard (negb (is_del (g_status s o))) EDeleted ;;;
@@ -484,22 +503,23 @@ Definition op_setmany (o : nat) (kw : list (nat * arg)) : M unit :=
   r <- validate_kw e kw ;;
   let avdict := fst r in
   let colls := snd r in
-  if is_empty avdict && is_empty colls then ret tt else
-  (if is_empty avdict then ret tt else
-     let mask := fold_left (fun m p => if a_hasbit (get_attr sch e (fst p)) then N.lor m (bit_of (fst p)) else m) avdict 0%N in
-     match bits_writes true s o mask with
-     | Some w => unlogged_writes TSetBits w
-     | None => add_taint TInconsistent ;;; fail EAssert
-     end) ;;;
-  if is_empty colls && negb (existsb (fun p => let at_ := get_attr sch e (fst p) in has_reverse at_ || part_of_unique en (fst p) at_) avdict)
-  then writes (map (fun p => (LVal o (fst p), CVal (snd p))) avdict)
+  let mask := fold_left (fun m p => if a_hasbit (get_attr sch e (fst p)) then N.lor m (bit_of (fst p)) else m) avdict 0%N in
+  if negb (is_empty avdict) && is_empty colls
+     && negb (existsb (fun p => let at_ := get_attr sch e (fst p) in has_reverse at_ || part_of_unique en (fst p) at_) avdict)
+  then
+    (* only plain attributes: nothing can fail any more *)
+    match bits_writes true s o mask with
+    | Some w => writes (w ++ map (fun p => (LVal o (fst p), CVal (snd p))) avdict)
+    | None => add_taint TInconsistent ;;; fail EAssert
+    end
   else
+    set_touch o mask (negb (is_empty avdict)) ;;;
     let av := filter (fun p => negb (value_eqb (snd p) (g_val s o (fst p)))) avdict in
     iterM (fun a => match lookup a av with
-                    | Some v => update_index false o e [a] [g_val s o a] [v]
+                    | Some v => update_index o e [a] [g_val s o a] [v]
                     | None => ret tt end) (e_skeys en) ;;;
     iterM (fun ck => if existsb (fun p => in_ckey (fst p) ck) av
-                     then update_index false o e ck (key_of s o ck) (key_with_many s o ck av)
+                     then update_index o e ck (key_of s o ck) (key_with_many s o ck av)
                      else ret tt) (e_ckeys en) ;;;
     iterM (fun p => if has_reverse (get_attr sch e (fst p)) then update_reverse del_top o e (fst p) (g_val s o (fst p)) (snd p) else ret tt) av ;;;
     iterM (fun p => set_set del_top false o e (fst p) (snd p)) colls ;;;
@@ -609,20 +629,16 @@ Definition body (o : op) : M unit :=
   | OCommit => fun c => ROk tt (set_st c (commit (c_st c)))
   end.
 
-Definition is_setmany (o : op) : bool := match o with OSetMany _ _ => true | _ => false end.
-
 Record outcome := mkout { o_state : state; o_err : option err; o_taints : list taint }.
 
-(* the except clause: `for undo_func in reversed(undo_funcs): undo_func()`; Entity.set iterates un-reversed.
+(* the except clause: `for undo_func in reversed(undo_funcs): undo_func()` (Entity.set too since repo cd0fda9).
    An assertion failing inside an undo_func replaces the original exception. *)
 Definition step (s : state) (o : op) : outcome :=
   match body o (mkctx s [] [] 0 0) with
   | ROk _ c => mkout (c_st c) None (c_taint c)
   | RErr e c =>
-      let fwd := is_setmany o in
-      let '(s', ok) := replay (if fwd then rev (c_log c) else c_log c) (c_st c) in
-      mkout s' (Some (if ok then e else EAssert))
-            ((if fwd && Nat.ltb 1 (length (c_log c)) then [TSetForward] else []) ++ c_taint c)
+      let '(s', ok) := replay (c_log c) (c_st c) in
+      mkout s' (Some (if ok then e else EAssert)) (c_taint c)
   end.
 
 End Model.
